@@ -9,6 +9,7 @@
    the start of the bubble. *)
 From Verif.Lib Require Import GoSem Bits.
 From Verif.Model Require Import Providers.
+From Verif.Corr Require Export Run_C07Close.   (* the concurrent (Close fence) cases *)
 Local Open Scope N_scope.
 
 Inductive hop :=
@@ -31,7 +32,7 @@ Record step_obs := { so_res : iobs;
                      so_rows : list (N * N * option N);  (* datastore rows after the op, sorted by (key, peer) *)
                      so_late : bool }.                   (* the op ran on a closed manager and the datastore journal grew *)
 
-Record case := { c_cap : nat; c_validity : N; c_interval : N; c_garbage : list (key * peer);
+Record scase := { c_cap : nat; c_validity : N; c_interval : N; c_garbage : list (key * peer);
                  c_ops : list hop; c_impl : list step_obs }.
 
 (* ---- sorting ------------------------------------------------------------- *)
@@ -175,7 +176,7 @@ Fixpoint dedup_N (l : list N) : list N :=   (* on a sorted list *)
   | _ => l
   end.
 
-Definition check (cs : case) : bool * bool :=
+Definition check (cs : scase) : bool * bool :=
   let c := {| cap := c_cap cs; validity := c_validity cs |} in
   let peers := dedup_N (sort_N (flat_map hop_peers (c_ops cs))) in
   let pairs := flat_map hop_pairs (c_ops cs) in
@@ -185,12 +186,18 @@ Definition check (cs : case) : bool * bool :=
 (* 0 = model and implementation agree and the property holds on the trace;
    1 = they differ only outside the property (e.g. which expired rows are still on disk);
    2 = the property fails on the implementation's trace *)
-Definition verdict (cs : case) : nat :=
+Definition sverdict (cs : scase) : nat :=
   match check cs with
   | (true, true) => 0
   | (true, false) => 1
   | (false, _) => 2
   end.
+
+(* a case is a sequential history (above) or a concurrent run on a gated
+   datastore (Run_C07Close.v) *)
+Inductive case := CSeq (c : scase) | CConc (c : ccase).
+Definition verdict (cs : case) : nat :=
+  match cs with CSeq c => sverdict c | CConc c => cverdict c end.
 
 Fixpoint verdicts_from (i : nat) (cs : list case) : list (nat * nat) :=
   match cs with
